@@ -253,6 +253,13 @@ Fixpoint strict_go (lc : list Z) (label : option str) (seq : list str) (lines : 
   end.
 Definition strict_parser (lc : list Z) (lines : list str) : pres := strict_go lc None [] lines.
 
+(** MinimalFastaParser(lines, strict, label_characters): [if not path: return []] for an empty list *)
+Definition minimal_parser (strict : bool) (lc : list Z) (lines : list str) : pres :=
+  match lines with
+  | [] => POk []
+  | _ => if strict then strict_parser lc lines else POk (faster_parser lc lines)
+  end.
+
 Definition fasta_lc : list Z := [GT].
 Definition gde_lc : list Z := [PCT; HASH].
 
@@ -270,6 +277,22 @@ Definition bytes_record (record : str) : list rec :=
          end
   end.
 Definition bytes_parser (data : str) : list rec := flat_map bytes_record (split_on GT data).
+
+(** [re.split(rb"(?<![^\n])>", s)]: split at every [c] that begins a line *)
+Fixpoint split_linestart (c : Z) (at_start : bool) (s : str) : list str :=
+  match s with
+  | [] => [[]]
+  | x :: t =>
+      match split_linestart c (x =? NL) t with
+      | [] => [[]]      (* unreachable *)
+      | w :: ws => if at_start && (x =? c) then [] :: w :: ws else (x :: w) :: ws
+      end
+  end.
+
+(** iter_fasta_records(data: bytes) after the proposed fix C06-1
+    [records = re.split(rb"(?<![^\n])>", data)]: a record starts at a '>' that begins a line *)
+Definition bytes_parser_fixed (data : str) : list rec :=
+  flat_map bytes_record (split_linestart GT true data).
 
 (** the line-based FASTA parsers applied to a file's text (text mode, universal newlines, then
     [splitlines]; [py_splitlines] already treats \r and \r\n as line ends) *)
